@@ -1,8 +1,395 @@
-"""Rules on errors.py and the parser's error handling (C01.cap/exc, C04.err, C14.msg/faults/noast)."""
+"""Rules on errors.py and the parser's error handling (C01.cap, C04.err, C14.msg/faults/noast, C17.order)."""
 from __future__ import annotations
 
-from ..common import Report
+import ast
+
+from ..absint import new_interp, Interp, HList, HDict, HInst, HGen, NONE, const, is_const, fmt, fmt_tree, mk_not
+from ..astutil import unparse
+from ..common import AnalysisError, Report
+from ..facts import facts
+from .. import nf
+from .matcher_rules import lin_eq
+from .line_rules import _str_parts
+from . import parser_rules as pr
+
+EFILE = "python/gherkin/errors.py"
+EQ = "gherkin.errors"
+PFILE = "python/gherkin/parser.py"
 
 
-def rule_error_locations(rep: Report, rid: str) -> None:
-    pass
+def _run(q, intr=None):
+    I = new_interp()
+    if intr:
+        I.intrinsics.update(intr)
+    fi = I.facts.func(q)
+    tree, rv, st = I.run(q)
+    return I, fi, tree, rv, st
+
+
+def _super_init_msg(tree):
+    for n, ctx in nf.iter_nodes(tree):
+        if n[0] == "mcall" and n[1] == "__init__" and n[2][0] == "super":
+            return n[3][0] if n[3] else None
+    return None
+
+
+def _merge(parts):
+    out = []
+    for p in parts:
+        if is_const(p) and isinstance(p[1], str) and out and is_const(out[-1]) and isinstance(out[-1][1], str):
+            out[-1] = const(out[-1][1] + p[1])
+        else:
+            out.append(p)
+    return out
+
+
+def _prefix(loc):
+    col = ("cond", ("cmp", "In", const("column"), loc), ("item", loc, const("column")), const(0))
+    return [const("("), ("call", "str", (("item", loc, const("line")),), ()), const(":"), ("call", "str", (col,), ()), const("): ")]
+
+
+def _exc_loc(I, tree, exc):
+    for n, ctx in nf.iter_nodes(tree):
+        if n[0] == "setattr" and n[1] == exc and n[2] == "location":
+            return n[3]
+    return None
+
+
+def rule_messages(rep: Report, rid="C14.msg") -> None:
+    rep.used_file(EFILE)
+    # ParserException: "(line:column|0): message", location stored
+    I, fi, tree, rv, st = _run(f"{EQ}.ParserException.__init__")
+    rep.used_function(fi.qualname)
+    p = fi.params()
+    selft, msg, loc = ("param", p[0]), ("param", p[1]), ("param", p[2])
+    kw = dict(file=EFILE, line=fi.node.lineno, function=fi.qualname)
+    rep.eq(rid, "a parser error keeps its location", loc, st.ext.get((selft, "location")), **kw)
+    m = _super_init_msg(tree)
+    col = ("cond", ("cmp", "In", const("column"), loc), ("item", loc, const("column")), const(0))
+    want = [const("("), ("call", "str", (("item", loc, const("line")),), ()), const(":"), ("call", "str", (col,), ()), const("): "), msg]
+    rep.eq(rid, "every error message starts with its own '(line:column): ' position (column 0 when unknown)", [fmt(x, I) for x in want],
+           [fmt(x, I) for x in _str_parts(m)] if m else None, **kw)
+    # UnexpectedTokenException
+    I, fi, tree, rv, st = _run(f"{EQ}.UnexpectedTokenException.__init__")
+    rep.used_function(fi.qualname)
+    p = fi.params()
+    selft, tok, exp = ("param", p[0]), ("param", p[1]), ("param", p[2])
+    kw = dict(file=EFILE, line=fi.node.lineno, function=fi.qualname)
+    m = _super_init_msg(tree)
+    line = ("attr", tok, "line")
+    quoted = ("cond", line, ("call", ".strip", (("attr", line, "_trimmed_line_text"),), ()), ("call", ".strip", (const("EOF"),), ()))
+    want_body = [const("expected: "), ("call", ".join", (const(", "), exp), ()), const(", got '"), quoted, const("'")]
+    got = _str_parts(m) if m else []
+    # the position prefix is built from the location chosen below; compare the message body only
+    nprefix = 4
+    ok_body = len(got) >= len(_merge([const("): ")] + want_body)) and got[-(len(want_body)):] [1:] == want_body[1:] \
+        and is_const(got[-len(want_body)]) and str(got[-len(want_body)][1]).endswith("): expected: ")
+    rep.ob(rid, "an unexpected-line message lists the expected token kinds joined by ', ' and quotes the trimmed line", ok_body, **kw,
+           expected=[fmt(x, I) for x in want_body], found=[fmt(x, I) for x in got[-len(want_body):]])
+    loc = st.ext.get((selft, "location"))
+    tl = ("attr", tok, "location")
+    colv = ("cond", ("cmp", "In", const("column"), tl), ("item", tl, const("column")), NONE)
+    ok = False
+    if loc is not None and loc[0] == "cond" and loc[1] == colv and loc[2] == tl:
+        d = nf.resolve_ref_dict(I, loc[3], tree)
+        ok = d is not None and set(d) == {"line", "column"} and d["line"][0] == ("item", tl, const("line")) \
+            and lin_eq(d["column"][0], ("binop", "Add", ("attr", line, "indent"), const(1)))
+    rep.ob("C04.err" if rid.startswith("C04") else rid, "an unexpected-line error is located at the token's own location, falling back to (line, indent + 1) when no column was set",
+           ok, **kw, expected="token.location if it has a column else {'line': token line, 'column': token.line.indent + 1}", found=fmt(loc, I) if loc else None)
+    # UnexpectedEOFException
+    I, fi, tree, rv, st = _run(f"{EQ}.UnexpectedEOFException.__init__")
+    rep.used_function(fi.qualname)
+    p = fi.params()
+    selft, tok, exp = ("param", p[0]), ("param", p[1]), ("param", p[2])
+    kw = dict(file=EFILE, line=fi.node.lineno, function=fi.qualname)
+    m = _super_init_msg(tree)
+    want = _merge(_prefix(("attr", tok, "location")) + [const("unexpected end of file, expected: "), ("call", ".join", (const(", "), exp), ())])
+    rep.eq(rid, "an unexpected-end-of-file message is '(line:col): unexpected end of file, expected: ' + the expected kinds joined by ', '",
+           [fmt(x, I) for x in want], [fmt(x, I) for x in _str_parts(m)] if m else None, **kw)
+    rep.eq(rid, "an unexpected-end-of-file error is located at the EOF token (one line past the last)", ("attr", tok, "location"), st.ext.get((selft, "location")), **kw)
+    # CompositeParserException keeps the list as collected
+    I, fi, tree, rv, st = _run(f"{EQ}.CompositeParserException.__init__")
+    rep.used_function(fi.qualname)
+    p = fi.params()
+    kw = dict(file=EFILE, line=fi.node.lineno, function=fi.qualname)
+    rep.eq(rid, "the composite error carries the collected errors themselves, in collection order", ("param", p[1]), st.ext.get((("param", p[0]), "errors")), **kw)
+    muts = [n for n, _ in nf.iter_nodes(tree) if n[0] == "mutate"]
+    rep.ob(rid, "the composite error does not reorder or drop errors", not muts, **kw, expected="no sort/pop", found=[(n[2], n[4]) for n in muts])
+    # subclasses
+    f = facts()
+    root = f.cls(f"{EQ}.ParserError")
+    for cn in ("ParserException", "CompositeParserException"):
+        c = f.cls(f"{EQ}.{cn}")
+        rep.ob(rid, f"{cn} is a ParserError", root in c.mro(), file=EFILE, line=c.node.lineno, function=c.qualname, expected="subclass of ParserError", found=[x.name for x in c.mro()])
+    for cn in ("NoSuchLanguageException", "AstBuilderException", "UnexpectedEOFException", "UnexpectedTokenException"):
+        c = f.cls(f"{EQ}.{cn}")
+        pe = f.cls(f"{EQ}.ParserException")
+        rep.ob(rid, f"{cn} is a ParserException (collected and located like the others)", pe in c.mro(), file=EFILE, line=c.node.lineno, function=c.qualname,
+               expected="subclass of ParserException", found=[x.name for x in c.mro()])
+
+
+def rule_error_locations(rep: Report, rid="C04.err") -> None:
+    rule_messages(rep, rid)
+
+
+def cap_threshold(test_src: ast.expr, lenvar: str):
+    """Smallest n >= 0 with test(n) true, for a comparison of len(<errors>) against a constant."""
+    for n in range(0, 40):
+        try:
+            if eval(compile(ast.Expression(test_src), "<cap>", "eval"), {"__builtins__": {}}, {lenvar: n}):
+                return n
+        except Exception:
+            return None
+    return None
+
+
+def rule_cap(rep: Report, rid="C01.cap") -> None:
+    """add_error: de-duplicated by message; appended; the composite is raised as soon as the list holds 11 errors."""
+    I, fi, tree, rv, st = _run("gherkin.parser.Parser.add_error")
+    rep.used_file(PFILE)
+    rep.used_function(fi.qualname)
+    p = fi.params()
+    ctx_t, err = ("param", p[1]), ("param", p[2])
+    errs = ("attr", ctx_t, "errors")
+    kw = dict(file=PFILE, line=fi.node.lineno, function=fi.qualname)
+    apps = [(n, c) for n, c in nf.iter_nodes(tree) if n[0] == "mutate" and n[1] == errs]
+    ok = len(apps) == 1 and apps[0][0][2] == "append" and apps[0][0][3] == (err,)
+    rep.ob(rid, "an error is collected by appending it to the context's error list (order of discovery)", ok, **kw,
+           expected="context.errors.append(error)", found=[(n[2], [fmt(a, I) for a in n[3]]) for n, _ in apps])
+    if not ok:
+        return
+    gs = nf.guards_in_ctx(apps[0][1])
+    dedup_ok = False
+    if len(gs) == 1 and gs[0][1] is False and gs[0][0][0] == "cmp" and gs[0][0][1] == "In" and gs[0][0][2] == ("call", "str", (err,), ()):
+        coll = gs[0][0][3]
+        o = I.obj(coll)
+        if isinstance(o, HList) and len(o.segs) == 1 and o.segs[0][0] == "loop":
+            lid = o.segs[0][1]
+            dedup_ok = I.loops[lid].get("iter") == errs and o.segs[0][2] == [("e", ("call", "str", (("elem", lid),), ()))] and not I.loops[lid].get("conds")
+    rep.ob(rid, "identical messages are collected once (de-duplication by str(error) against this parse's errors)", dedup_ok, **kw,
+           expected="if str(error) not in (str(e) for e in context.errors)", found=[(fmt(c, I), p2) for c, p2 in gs])
+    # the cap: a raise right after the append, guarded by len(context.errors) <cmp> const
+    raises = [(n, c) for n, c in nf.iter_nodes(tree) if n[0] == "raise"]
+    good = False
+    thr = None
+    found = None
+    for n, c in raises:
+        g2 = nf.guards_in_ctx(c)
+        extra = [x for x in g2 if x not in gs]
+        if len(extra) == 1 and extra[0][0][0] == "cmp" and extra[0][0][2] == ("call", "len", (errs,), ()) and is_const(extra[0][0][3]):
+            op = {"Gt": ">", "GtE": ">=", "Eq": "==", "Lt": "<", "LtE": "<="}.get(extra[0][0][1])
+            src = f"(n {op} {extra[0][0][3][1]})" if extra[0][1] else f"(not (n {op} {extra[0][0][3][1]}))"
+            thr = cap_threshold(ast.parse(src, mode="eval").body, "n") if op else None
+            found = src
+            o = I.obj(n[1])
+            carried = st.ext.get((n[1], "errors")) if st else None
+            e2 = None
+            for m2, _ in nf.iter_nodes(tree):
+                if m2[0] == "setattr" and m2[1] == n[1] and m2[2] == "errors":
+                    e2 = m2[3]
+            good = isinstance(o, HInst) and o.cls.name == "CompositeParserException" and e2 == errs
+    rep.ob(rid, "collecting stops with the composite error exactly when the 11th distinct error has been appended", good and thr == 11, **kw,
+           expected="append, then if len(context.errors) > 10: raise CompositeParserException(context.errors)",
+           found=f"raise guarded by {found} -> first satisfied at {thr} errors" if found else f"{len(raises)} raise(s), none guarded by the list length right after the append")
+    # the errors list is written only here
+    f = facts()
+    sites = 0
+    for fn in f.all_functions():
+        if fn.module.name == "gherkin.inout":
+            continue
+        for n in ast.walk(fn.node):
+            if isinstance(n, ast.Call) and isinstance(n.func, ast.Attribute) and n.func.attr in Interp.MUTATORS and isinstance(n.func.value, ast.Attribute) \
+                    and n.func.value.attr == "errors" and not (isinstance(n.func.value.value, ast.Name) and n.func.value.value.id == "self" and fn.cls and fn.cls.name != "ParserContext"):
+                sites += 1
+                rep.ob(rid, "the collected-error list is only changed by add_error", fn.qualname == fi.qualname, file=fn.file, line=n.lineno, function=fn.qualname,
+                       expected=fi.qualname, found=fn.qualname)
+    rep.floor("error list mutation sites", sites, 1)
+
+
+def rule_handle_external(rep: Report, rid="C14.wrap") -> None:
+    I, fi, tree, rv, st = _run("gherkin.parser.Parser.handle_external_error",
+                               {"gherkin.parser.Parser.add_error": lambda I_, st_, fi_, args, kw_, n, tree_: (tree_.append(("add_error", tuple(args), getattr(n, "lineno", None))), NONE)[1]})
+    rep.used_function(fi.qualname)
+    p = fi.params()
+    selft, ctxp, dflt, arg, act = [("param", x) for x in p[:5]]
+    kw = dict(file=PFILE, line=fi.node.lineno, function=fi.qualname)
+    stop = ("attr", selft, "stop_at_first_error")
+    top = [n for n in tree if n[0] == "if"]
+    ok_shape = len(top) == 1 and nf.norm_guard(top[0][1], True)[0] == stop
+    rep.ob(rid, "the wrapper branches on stop-at-first-error only", ok_shape, **kw, expected="if self.stop_at_first_error", found=[fmt(n[1], I) for n in top])
+    if not ok_shape:
+        return
+    pol = nf.norm_guard(top[0][1], True)[1]
+    stop_tree, coll_tree = (top[0][2], top[0][3]) if pol else (top[0][3], top[0][2])
+    calls = [n for n, _ in nf.iter_nodes(stop_tree) if n[0] == "dyncall"]
+    trys = [n for n, _ in nf.iter_nodes(stop_tree) if n[0] == "try"]
+    rets = [n for n, _ in nf.iter_nodes(stop_tree) if n[0] == "return"]
+    rep.ob(rid, "stop mode: the action runs unprotected and its result is returned (the first error propagates as raised)",
+           len(calls) == 1 and calls[0][1] == act and calls[0][2] == (arg,) and not trys and len(rets) == 1, **kw,
+           expected="return action(argument)", found={"calls": len(calls), "try": len(trys)})
+    trys = [n for n in coll_tree if n[0] == "try"]
+    if len(trys) != 1:
+        rep.ob(rid, "collect mode: the action runs inside one try", False, **kw, expected="try: return action(argument)", found=len(trys))
+        return
+    t = trys[0]
+    body_calls = [n for n, _ in nf.iter_nodes(t[1]) if n[0] == "dyncall"]
+    rep.ob(rid, "collect mode: exactly the action call is protected", len(body_calls) == 1 and body_calls[0][1] == act and body_calls[0][2] == (arg,), **kw,
+           expected="action(argument)", found=len(body_calls))
+    handlers = {h[0]: h for h in t[2]}
+    rep.eq(rid, "collect mode: parser exceptions (single and composite) are caught, nothing broader", ["CompositeParserException", "ParserException"], sorted(handlers), **kw)
+    h = handlers.get("ParserException")
+    if h:
+        adds = [n for n, _ in nf.iter_nodes(h[2]) if n[0] == "add_error"]
+        ok = len(adds) == 1 and adds[0][1][1] == ctxp and adds[0][1][2][0] == "excvar"
+        rep.ob(rid, "a parser exception from a matcher/builder call becomes one collected error", ok, **kw, expected="self.add_error(context, e)", found=len(adds))
+    h = handlers.get("CompositeParserException")
+    if h:
+        adds = [(n, c) for n, c in nf.iter_nodes(h[2]) if n[0] == "add_error"]
+        ok = False
+        if len(adds) == 1:
+            loops = nf.loops_in_ctx(adds[0][1])
+            ok = len(loops) == 1 and adds[0][0][1][2] == ("elem", loops[0]) and I.loops[loops[0]].get("iter", ("x",))[0] == "attr" \
+                and I.loops[loops[0]]["iter"][2] == "errors" and not I.loops[loops[0]].get("conds")
+        rep.ob(rid, "a composite exception contributes each of its errors, in order", ok, **kw, expected="for error in e.errors: self.add_error(context, error)", found=len(adds))
+    after = [n for n in coll_tree if n[0] == "return"]
+    rep.ob(rid, "collect mode: after a collected error the wrapper returns the caller's default (no match / carry on)", len(after) == 1 and after[0][1] == dflt, **kw,
+           expected="return default_value", found=[fmt(n[1], I) for n in after])
+
+
+def rule_noast(rep: Report, rid="C14.noast") -> None:
+    pf = pr.parse_frame()
+    fi = pf.fi
+    rep.used_function(fi.qualname)
+    kw = dict(file=PFILE, line=fi.node.lineno, function=fi.qualname)
+    ri = pf.index("raise_if_errors")
+    gi = pf.index("get_result")
+    ei = max([i for i, e in enumerate(pf.events) if e[0] == "end_rule"], default=-1)
+    le = pf.index("endloop")
+    r = pf.first("raise_if_errors")
+    ok = ri >= 0 and gi > ri and ri > le >= 0 and r[3] == 0 and not r[2]
+    rep.ob(rid, "after the loop, a non-empty error list raises the composite error before any result is taken from the builder", ok, **kw,
+           expected="if context.errors: raise CompositeParserException(context.errors) ... return self.get_result()", found=[e[0] for e in pf.events])
+    if r is not None:
+        ctxv = pf.ctx_var
+        rep.eq(rid, "the composite raised at the end carries this parse's error list", f"CompositeParserException({ctxv}.errors)", r[4], **kw)
+    rets = pf.all("return")
+    rep.ob(rid, "parse returns only the builder's result, after the error check", len(rets) == 1 and "get_result" in (rets[0][4] or "") and not rets[0][2], **kw,
+           expected="return self.get_result()", found=[e[4] for e in rets])
+
+
+def rule_stream(rep: Report, rid="C17.order") -> None:
+    """enum: source, gherkinDocument, pickles - each gated by its own option only, after a successful parse;
+    errors yield parseError envelopes only."""
+    def stub(name):
+        def h(I_, st_, fi_, args, kwargs, n, tree_):
+            tree_.append((name, tuple(args), getattr(n, "lineno", None)))
+            return (name + "_result",)
+        return h
+    q = "gherkin.stream.gherkin_events.GherkinEvents.enum"
+    I, fi, tree, rv, st = _run(q, {"gherkin.parser.Parser.parse": stub("parse"), "gherkin.pickles.compiler.Compiler.compile": stub("compile")})
+    rep.used_file(fi.file)
+    rep.used_function(fi.qualname)
+    p = fi.params()
+    selft, ev = ("param", p[0]), ("param", p[1])
+    kw = dict(file=fi.file, line=fi.node.lineno, function=fi.qualname)
+    trys = [n for n in tree if n[0] == "try"]
+    outside = [n for n, c in nf.iter_nodes(tree) if n[0] in ("yield", "yieldfrom", "parse", "compile") and not any(x[0] in ("try", "except") for x in c)]
+    if len(trys) != 1 or outside:
+        rep.ob(rid, "parsing, compiling and all yields happen inside one try whose handlers turn parser errors into envelopes", False, **kw,
+               expected="one try", found={"try": len(trys), "outside": [n[0] for n in outside]})
+        return
+    t = trys[0]
+    uri = ("item", ("item", ev, const("source")), const("uri"))
+    data = ("item", ("item", ev, const("source")), const("data"))
+    seq = []
+    for n, c in nf.iter_nodes(t[1]):
+        if n[0] in ("parse", "compile", "yield", "yieldfrom"):
+            seq.append((n, nf.guards_in_ctx(c), nf.loops_in_ctx(c)))
+    kinds = []
+    opt = lambda o: ("attr", ("attr", selft, "options"), o)
+    ok_all = True
+    details = []
+    for n, gs, loops in seq:
+        if n[0] == "parse":
+            kinds.append("parse")
+            ok = not gs and n[1][1] == data and n[1][0] == ("attr", selft, "parser")
+            details.append(("parse", ok))
+        elif n[0] == "compile":
+            kinds.append("compile")
+            d = nf.resolve_ref_dict(I, n[1][1], tree) if len(n[1]) > 1 else None
+            ok = gs == [(opt("print_pickles"), True)] and n[1][0] == ("attr", selft, "compiler") and d is not None and d.get("uri", (None,))[0] == uri \
+                and ("dyn", ("parse_result",)) not in d and any(e[0] == "**" and e[1] == ("parse_result",) for e in I.obj(n[1][1]).entries)
+            details.append(("compile gated by print_pickles only, on {**document, uri}", ok))
+        elif n[0] == "yield":
+            v = n[1]
+            if v == ev:
+                kinds.append("source")
+                ok = gs == [(opt("print_source"), True)] and not loops
+                details.append(("source envelope = the incoming event, gated by print_source only", ok))
+            else:
+                d = nf.resolve_ref_dict(I, v, tree)
+                k = next(iter(d)) if d and len(d) == 1 else None
+                kinds.append(str(k))
+                if k == "gherkinDocument":
+                    dd = nf.resolve_ref_dict(I, d[k][0], tree)
+                    ok = gs == [(opt("print_ast"), True)] and not loops and dd is not None and dd.get("uri", (None,))[0] == uri \
+                        and any(e[0] == "**" and e[1] == ("parse_result",) for e in I.obj(d[k][0]).entries)
+                    details.append(("gherkinDocument envelope = {**document, uri}, gated by print_ast only", ok))
+                elif k == "pickle":
+                    ok = gs == [(opt("print_pickles"), True)] and len(loops) == 1 and I.loops[loops[0]].get("iter") == ("compile_result",) \
+                        and d[k][0] == ("elem", loops[0]) and not I.loops[loops[0]].get("conds")
+                    details.append(("one pickle envelope per compiled pickle, in order, gated by print_pickles only", ok))
+                else:
+                    details.append((f"unexpected envelope {fmt(v, I)}", False))
+        else:
+            kinds.append("yieldfrom")
+            details.append(("no error envelopes on the success path", False))
+    for what, ok in details:
+        rep.ob(rid, what, ok, **kw, expected="as stated", found="deviates" if not ok else "ok")
+    rep.eq(rid, "envelope order is source, gherkinDocument, pickles, all after the parse", ["parse", "source", "gherkinDocument", "compile", "pickle"], kinds, **kw)
+    # handlers
+    hs = {h[0]: h for h in t[2]}
+    rep.ob(rid, "handlers cover the composite error and the root ParserError", "CompositeParserException" in hs and "ParserError" in hs and
+           [h[0] for h in t[2]].index("CompositeParserException") < [h[0] for h in t[2]].index("ParserError"), **kw,
+           expected="except CompositeParserException ... except ParserError", found=[h[0] for h in t[2]])
+    for name, h in hs.items():
+        ys = [n for n, c in nf.iter_nodes(h[2]) if n[0] in ("yield", "yieldfrom")]
+        ok = len(ys) == 1 and ys[0][0] == "yieldfrom" and isinstance(I.obj(ys[0][1]), HGen) and I.obj(ys[0][1]).qualname.endswith(".create_errors")
+        if ok:
+            g = I.obj(ys[0][1])
+            a0 = g.args[0]
+            if name == "CompositeParserException":
+                ok = a0[0] == "attr" and a0[2] == "errors" and a0[1][0] == "excvar" and g.args[1] == uri
+            else:
+                o = I.obj(a0)
+                ok = isinstance(o, HList) and len(o.segs) == 1 and o.segs[0][0] == "e" and o.segs[0][1][0] == "excvar" and g.args[1] == uri
+        rep.ob(rid, f"handler for {name} yields only parseError envelopes, one per error", ok, **kw, expected="yield from create_errors(errors, uri)", found=[n[0] for n in ys])
+    # create_errors
+    I2, fi2, tree2, rv2, st2 = _run("gherkin.stream.gherkin_events.create_errors")
+    rep.used_function(fi2.qualname)
+    ys = [(n, c) for n, c in nf.iter_nodes(tree2) if n[0] == "yield"]
+    ok = False
+    if len(ys) == 1 and len(nf.loops_in_ctx(ys[0][1])) == 1:
+        lid = nf.loops_in_ctx(ys[0][1])[0]
+        el = ("elem", lid)
+        d = nf.resolve_ref_dict(I2, ys[0][0][1], tree2)
+        pe = nf.resolve_ref_dict(I2, d["parseError"][0], tree2) if d and set(d) == {"parseError"} else None
+        src = nf.resolve_ref_dict(I2, pe["source"][0], tree2) if pe and set(pe) == {"source", "message"} else None
+        ok = src is not None and set(src) == {"uri", "location"} and src["uri"][0] == ("param", fi2.params()[1]) and src["location"][0] == ("attr", el, "location") \
+            and pe["message"][0] == ("call", "str", (el,), ()) and I2.loops[lid].get("iter") == ("param", fi2.params()[0]) and not I2.loops[lid].get("conds")
+    rep.ob(rid, "a parseError envelope carries {source: {uri, location: error.location}, message: str(error)}, one per error in order", ok,
+           file=fi2.file, line=fi2.node.lineno, function=fi2.qualname, expected="{'parseError': {'source': {'uri', 'location'}, 'message'}}", found=[fmt(n[1], I2) for n, _ in ys])
+    # the stream shares one id generator between builder and compiler and one parser/compiler across sources
+    I3, fi3, tree3, rv3, st3 = _run("gherkin.stream.gherkin_events.GherkinEvents.__init__")
+    rep.used_function(fi3.qualname)
+    s3 = ("param", fi3.params()[0])
+    gen = st3.ext.get((s3, "id_generator"))
+    par = st3.ext.get((s3, "parser"))
+    comp = st3.ext.get((s3, "compiler"))
+    ok = gen is not None and isinstance(I3.obj(gen), HInst) and I3.obj(gen).cls.name == "IdGenerator"
+    b = st3.ext.get((par, "ast_builder")) if par else None
+    ok = ok and b is not None and st3.ext.get((b, "id_generator")) == gen and comp is not None and st3.ext.get((comp, "id_generator")) == gen
+    rep.ob("C11.gen" if rid.startswith("C11") else rid, "the stream's builder and compiler draw from one and the same id generator object", ok,
+           file=fi3.file, line=fi3.node.lineno, function=fi3.qualname, expected="Parser(AstBuilder(g)), Compiler(g) with the same g",
+           found={"generator": fmt(gen, I3) if gen else None, "builder's": fmt(st3.ext.get((b, 'id_generator')), I3) if b and st3.ext.get((b, 'id_generator')) else None,
+                  "compiler's": fmt(st3.ext.get((comp, 'id_generator')), I3) if comp and st3.ext.get((comp, 'id_generator')) else None})
